@@ -100,7 +100,7 @@ type Prover struct {
 	hasHi map[string]bool
 
 	atoms   map[string]*atomRef
-	defs    []Fact
+	defs    []defFact
 	conds   []condFact
 	seenDef map[ssa.Value]bool
 	rdCache map[string]func(ssa.Instruction) []ssa.Value
@@ -821,7 +821,50 @@ func (p *Prover) applyOwnedLen(a string) {
 
 // ---- linearisation ------------------------------------------------------------
 
-func (p *Prover) addDef(l ILin) { p.defs = append(p.defs, Fact{L: l}) }
+// addDef records a fact that follows from the definition of value v. It may
+// only be used where v has been computed (v's instruction dominates the use):
+// the fact can embed partial operations (the length of a slice expression is
+// only meaningful after the slicing did not panic).
+func (p *Prover) addDef(v ssa.Value, l ILin) {
+	d := defFact{L: l}
+	if in, ok := v.(ssa.Instruction); ok {
+		d.at = in
+	}
+	p.defs = append(p.defs, d)
+}
+
+type defFact struct {
+	L  ILin
+	at ssa.Instruction
+}
+
+// defsAt: the definitional facts usable at `at`.
+func (p *Prover) defsAt(at ssa.Instruction) []Fact {
+	var out []Fact
+	for _, d := range p.defs {
+		if d.at == nil {
+			out = append(out, Fact{L: d.L})
+			continue
+		}
+		if at == nil || !instrDominates(d.at, at) {
+			continue
+		}
+		out = append(out, Fact{L: d.L, Origin: d.at})
+	}
+	return out
+}
+
+// instrDominates: a executes before b on every path to b (a != b).
+func instrDominates(a, b ssa.Instruction) bool {
+	ba, bb := a.Block(), b.Block()
+	if ba == nil || bb == nil {
+		return false
+	}
+	if ba == bb {
+		return indexOf(ba, a) < indexOf(bb, b)
+	}
+	return ba.Dominates(bb)
+}
 
 // Int linearises an integer SSA value.
 func (p *Prover) Int(v ssa.Value, d int) (ILin, bool) {
@@ -910,10 +953,10 @@ func (p *Prover) Int(v ssa.Value, d int) (ILin, bool) {
 					p.seenDef[x] = true
 					if in, ok := p.Int(x.X, d+1); ok {
 						r := lin1(a)
-						p.addDef(in.add(r, -1))
+						p.addDef(x, in.add(r, -1))
 						f := r.add(in, -1)
 						f.C += m
-						p.addDef(f)
+						p.addDef(x, f)
 						if mn, ok := p.minOf(in); ok && mn >= 0 {
 							p.setLo(a, 0)
 						}
@@ -928,10 +971,10 @@ func (p *Prover) Int(v ssa.Value, d int) (ILin, bool) {
 					p.seenDef[x] = true
 					if in, ok := p.Int(x.X, d+1); ok {
 						r := lin1(a)
-						p.addDef(in.add(r, -1))
+						p.addDef(x, in.add(r, -1))
 						f := r.add(in, -1)
 						f.C += m
-						p.addDef(f)
+						p.addDef(x, f)
 						if mn, ok := p.minOf(in); ok && mn >= 0 {
 							p.setLo(a, 0)
 						}
@@ -979,10 +1022,10 @@ func (p *Prover) Int(v ssa.Value, d int) (ILin, bool) {
 					p.seenDef[x] = true
 					r := lin1(a)
 					if dl, ok := p.Len(x.Call.Args[0], d+1); ok {
-						p.addDef(dl.add(r, -1))
+						p.addDef(x, dl.add(r, -1))
 					}
 					if sl, ok := p.Len(x.Call.Args[1], d+1); ok {
-						p.addDef(sl.add(r, -1))
+						p.addDef(x, sl.add(r, -1))
 					}
 				}
 				return lin1(a), true
@@ -994,7 +1037,7 @@ func (p *Prover) Int(v ssa.Value, d int) (ILin, bool) {
 					allLo, have := int64(0), false
 					for _, arg := range x.Call.Args {
 						if al, ok := p.Int(arg, d+1); ok {
-							p.addDef(al.add(r, -1))
+							p.addDef(x, al.add(r, -1))
 							if mn, ok := p.minOf(al); ok {
 								if !have || mn < allLo {
 									allLo = mn
@@ -1027,10 +1070,10 @@ func (p *Prover) Int(v ssa.Value, d int) (ILin, bool) {
 						r := lin1(a)
 						lo := r.add(in, -1)
 						lo.C -= 16
-						p.addDef(lo) // r - n - 16 >= 0
+						p.addDef(x, lo) // r - n - 16 >= 0
 						hi := in.add(r, -1)
 						hi.C += 23
-						p.addDef(hi) // n + 23 - r >= 0
+						p.addDef(x, hi) // n + 23 - r >= 0
 					}
 				}
 				return lin1(a), true
@@ -1215,7 +1258,7 @@ func (p *Prover) Cap(v ssa.Value, d int) (ILin, bool) {
 			if !p.seenDef[v] {
 				p.seenDef[v] = true
 				if c, ok := p.Cap(x.Call.Args[0], d+1); ok {
-					p.addDef(lin1(a).add(c, -1))
+					p.addDef(v, lin1(a).add(c, -1))
 				}
 			}
 			return lin1(a), true
@@ -1233,7 +1276,7 @@ func (p *Prover) Cap(v ssa.Value, d int) (ILin, bool) {
 	if !p.seenDef[v] {
 		p.seenDef[v] = true
 		if l, ok := p.Len(v, d+1); ok {
-			p.addDef(lin1(a).add(l, -1))
+			p.addDef(v, lin1(a).add(l, -1))
 		}
 	}
 	return lin1(a), true
@@ -1413,7 +1456,9 @@ func (p *Prover) rawFacts(at ssa.Instruction) []Fact {
 // GuardFacts returns the usable facts at `at` (stability-filtered), including
 // definitional facts.
 func (p *Prover) GuardFacts(at ssa.Instruction) []ILin {
-	return p.usable(p.rawFacts(at), at)
+	fs := p.rawFacts(at)
+	fs = append(fs, p.defsAt(at)...)
+	return p.usable(fs, at)
 }
 
 func (p *Prover) usable(fs []Fact, at ssa.Instruction) []ILin {
@@ -1882,7 +1927,9 @@ func (p *Prover) maxOf(g ILin) (int64, bool) {
 func (p *Prover) Prove(g ILin, facts []ILin) bool {
 	all := append([]ILin{}, facts...)
 	for _, d := range p.defs {
-		all = append(all, d.L)
+		if d.at == nil {
+			all = append(all, d.L)
+		}
 	}
 	memo := map[string]bool{}
 	return p.prove(g, all, 0, memo)
@@ -2744,6 +2791,7 @@ func (p *Prover) EdgeProves(b *ssa.BasicBlock, si int, g ILin) bool {
 	for _, f := range fs {
 		ls = append(ls, f.L)
 	}
+	ls = append(ls, p.usable(p.defsAt(lastIfOf(b)), lastIfOf(b))...)
 	return p.Prove(g, ls)
 }
 
@@ -2832,6 +2880,9 @@ func (p *Prover) errExtract(c *ssa.Call) ssa.Value {
 func (p *Prover) condFactsFor(g ILin, facts []ILin, at ssa.Instruction, hyp []ILin, depth int) []ILin {
 	var out []ILin
 	for _, cf := range p.conds {
+		if !instrDominates(cf.call, at) {
+			continue // a postcondition of a call that has not returned yet
+		}
 		if cf.success {
 			ev := p.errExtract(cf.call)
 			if ev == nil || !provenNil(ev, at.Block()) {
